@@ -150,6 +150,77 @@ def sensitive_not_vulnerable(sd):
     return weak
 
 
+def py_goal_reachable(sd):
+    """quick pre-screen for the failing-input search (NOT the judge): monotone saturation of the set of
+    hosts on which root can be obtained, ignoring discovery order"""
+    cfg = dict(sd["hosts"])
+    n = len(sd["subnets"])
+    acc = {a: 0 for a in cfg}
+    pub = [bool(sd["topo"][s][0]) for s in range(n)]
+
+    def sub_ok(s, t, srv):
+        return s == t or (sd["topo"][s][t] and srv in sd["fw"].get((s, t), []))
+    changed = True
+    while changed:
+        changed = False
+        comp = [a for a, v in acc.items() if v > 0]
+        for a, c in cfg.items():
+            for e in sd["exploits"]:
+                if acc[a] >= e["acc"] or not c["srv"][e["srv"]] or not (e["os"] is None or c["os"][e["os"]]):
+                    continue
+                reach = pub[a[0]] or any(sd["topo"][b[0]][a[0]] for b in comp)
+                perm = pub[a[0]] or any(sub_ok(b[0], a[0], e["srv"]) for b in comp)
+                traffic = (pub[a[0]] and sub_ok(0, a[0], e["srv"])) or any(
+                    sub_ok(b[0], a[0], e["srv"]) and e["srv"] not in c["fw"].get(b, []) for b in comp)
+                if reach and perm and traffic:
+                    acc[a] = e["acc"]
+                    changed = True
+            if acc[a] > 0:
+                for q in sd["privescs"]:
+                    if acc[a] < q["acc"] and c["proc"][q["proc"]] and (q["os"] is None or c["os"][q["os"]]):
+                        acc[a] = q["acc"]
+                        changed = True
+    return all(acc[a] >= 2 for a, _ in sd["sens"])
+
+
+def search_unsolvable(rng, psets, budget_s, reuse):
+    """failing-input search for C16 after a generator tie broke: many more seeds of the small parameter sets
+    (fresh and re-used generator objects); candidates come from the pre-screen, the verdict from the model's
+    closure and the replay of its plan on the real environment.  Returns violation dicts."""
+    import nasim
+    from nasim.scenarios.generator import ScenarioGenerator
+    t0, found, tried = time.time(), [], 0
+    small = [(n_, p_) for n_, p_ in psets if p_["num_hosts"] <= 16] or psets[:3]
+    gobj = ScenarioGenerator()
+    while time.time() - t0 < budget_s and len(found) < 2:
+        name, p = rng.choice(small)
+        s = rng.randrange(100000)
+        np.random.seed(s)
+        kw = {k: v for k, v in p.items() if k != "seed"}
+        reused = reuse and rng.random() < 0.5
+        try:
+            sc = gobj.generate(**kw) if reused else nasim.generate_scenario(**kw)
+            sd = scen.scenario_to_sd(sc)
+        except Inexact:
+            raise
+        except Exception:   # noqa: BLE001
+            continue
+        tried += 1
+        if py_goal_reachable(sd) and not sensitive_not_vulnerable(sd):
+            continue
+        so = run_driver([[15, scen.sd_wire(sd)]])[0]
+        where = dict(params=p, seed=s, name=name, generator_object_reused=reused)
+        if not so[0]:
+            found.append(dict(kind="scenario", property="C16", failing_input_found=True, signature=None, scenario=sd,
+                              what="no action sequence reaches the goal (closure of the model) -- found by the search "
+                                   "that follows a broken generator correspondence", **where))
+        elif not replay_plan(sc, so[1], sd):
+            found.append(dict(kind="scenario+plan", property="C16", failing_input_found=True, signature=None, scenario=sd,
+                              plan=so[1], what="replaying the model's plan on the real environment does not end with the "
+                                               "terminal flag", **where))
+    return found, tried
+
+
 def replay_plan(sc, plan_wire, sd):
     """step the model's plan through the real environment with the draw forced to succeed"""
     from nasim.envs.environment import NASimEnv
@@ -343,7 +414,8 @@ def run(ctx, spec):
                                           what=f"the generated scenario is malformed (reading it failed with {e!r})"[:300]))
             continue
         distinct.add(hashlib.sha1(json.dumps(iw).encode()).hexdigest())
-        where = dict(params=p, seed=s, name=name)
+        where = dict(params=p, seed=s, name=name,
+                     generator_object_reused=bool(p["num_hosts"] <= 10 and s >= len(seeds) and not name.startswith(("pocp", "hosts"))))
         if pid == "C15":
             # the property's clauses are judged on the implementation's scenario, whatever the tie says
             try:
@@ -407,7 +479,20 @@ def run(ctx, spec):
                                               what="no action sequence reaches the goal (closure of the model)",
                                               scenario=sd, **where))
                 continue
-            done = replay_plan(sc, plan, sd)
+            try:
+                done = replay_plan(sc, plan, sd)
+            except Inexact:
+                raise
+            except Exception as e_:   # noqa: BLE001
+                import traceback as _tb
+                tb_ = _tb.format_exc()
+                if "/nasim/" not in tb_:
+                    raise
+                out["violations"].append(dict(kind="scenario+plan", property=pid, failing_input_found=True, signature=None,
+                                              what="the real environment cannot be built from / stepped on the scenario "
+                                                   f"the generator returned: {e_!r}"[:300], scenario=sd, plan=plan,
+                                              traceback=tb_[-1200:], **where))
+                continue
             replayed += 1
             if not done:
                 out["violations"].append(dict(kind="scenario+plan", property=pid, failing_input_found=True, signature=None,
@@ -416,6 +501,11 @@ def run(ctx, spec):
             if len(out["samples"]) < 2:
                 out["samples"].append(dict(where=where, plan_length=len(plan), plan=plan[:4]))
         stats["plans_replayed_on_impl"] = replayed
+        if any(v["kind"] == "broken-correspondence" for v in out["violations"]) \
+           and not any(v.get("failing_input_found") for v in out["violations"]):
+            found, tried = search_unsolvable(rng, psets, 40 if tier == "quick" else 600, reuse=True)
+            stats["failing_input_search_scenarios"] = tried
+            out["violations"] += found
         # kernel-checked fact about the CURRENT shipped files: gen/Shipped.v is rewritten and re-checked
         ok, cmd = shipped_theorem()
         out["extra_obligations"], out["extra_discharged"] = 1, int(ok)
